@@ -52,6 +52,12 @@ def harnesses(ctx):
                   kernel="C01-a a partition of the normalised text maps to a partition of the original (adjacent, 0..len, on character boundaries, surfaces add up)",
                   assumptions=["the offset map satisfies the invariant I (preserved by every edit batch: c01_batch_*)",
                                "token ranges are consecutive in the normalised text (c01_path_*: the best path is gap-free)"], timeout_s=900, mem_gb=12)]
+    hs.append(Harness("c01_split_partition", "analysis__node",
+                      ["ResultNode::split", "NodeSplitIterator::next", "LexiconSet::get_word_info_subset", "WordInfoParser::parse (HEAD_WORD_LENGTH)", "InputBuffer::ch_idx"],
+                      "a parent node [b, e) anywhere in an 8-byte ASCII text, two A-split units whose key lengths are any values < 127 with the first fitting the parent",
+                      kernel="C01 A/B sub-tokens partition the parent's range: intermediate ends from the key length, the last sub-token inherits the parent end",
+                      assumptions=["the first unit's key length does not exceed the parent (declared units concatenate to the word's key)", "ASCII text (bytes = characters)"],
+                      stubs=["alloc::fmt::format -> empty string"], fs_array=True, timeout_s=1200, mem_gb=16))
     for (n, s, e) in _batch_shapes(ctx):
         _, target = C08.gen_shape(n, s, e)
         heavy = len(e) >= 2
@@ -72,7 +78,7 @@ def harnesses(ctx):
 
 OUTSIDE = ["the end-to-end statement (regex/aho-corasick/NFKC plugins, dictionaries) is NOT decided; only the three links and their written-down chaining",
            "that plugins emit sorted non-overlapping edits on boundaries", "resolve_best_path's char->byte conversion of node ranges (table correctness: C08-d)",
-           "A/B sub-nodes (C09) and joined nodes (C14): not applicable", "an input whose normalised form is empty"]
+           "joined nodes (C14): not applicable; A/B sub-nodes only at the iterator level (c01_split_partition), not which words carry which splits (C09)", "an input whose normalised form is empty"]
 EXPLANATION = "Compositional: partition transfer through the offset map, invariant preservation per edit batch, gap-free best path."
 MANIFEST = dict(
     design_ref="DESIGN.md §4 C01",
